@@ -60,4 +60,42 @@ CHECKS = {
             dict(pkg="seq", run="TestC20CallSites|TestC20GoMetrics", rapid=False, shards=1, timeout=120),
         ],
     ),
+    "C16": dict(
+        level="exploration",
+        technique="property-based testing (rapid) of generated multi-node replication histories around verifier.LogStore; oracle = ground-truth equality between what each node holds and what the leader checksummed",
+        rule="rapid-generated histories on 2-4 nodes (inner store InmemStore or WAL on SimFS): leader appends with checkpoints, replication in arbitrary batch splits and lags, leadership changes with conflicting suffixes (follower DeleteRange + re-append), middleware restarts, head truncations, snapshot installs, index-1 configuration entries; every delivered VerificationReport is judged: node holds the range exactly as the leader wrote it => Err must be nil; node lacks part of it => ErrRangeMismatch. Each node is quiesced before its next mutation. Non-trivial = a history in which a judged report follows a restart, head truncation or tail truncation on that node since its previous checkpoint; distinct = FNV-64 of the case",
+        expect_classes=["clean-range-verified", "range-not-held", "report-after-restart", "report-after-headtrunc", "report-after-tailtrunc", "leader-change", "conflict-suffix-truncated", "multi-entry-replication-batch", "snapshot-install"],
+        assumptions=COMMON_ASSUME + ["ranges are not modified while their verification runs (the harness waits for delivered+dropped == checkpoints_written before the next mutation of a node)", "raft never re-uses an index except after a tail truncation of it (the simulated cluster keeps a logical last index across head truncations)"],
+        jobs=[dict(pkg="cluster", run="TestC16NoFalseAlarm", checks_quick=600, checks_thorough=12000, shards_quick=8, shards_thorough=16, timeout_quick=300, timeout_thorough=1800)],
+    ),
+    "C17": dict(
+        level="exploration",
+        technique="property-based mutation testing of replication histories (rapid): one generated single-field divergence per case, in flight or at rest, judged against ground truth",
+        rule="a clean generated history, then checkpoint cp0, window entries and checkpoint cp1 with exactly one effective mutation inside [cp0,cp1): position {first,middle,last} x field {index(at rest),term,type,data flip/trunc/extend/replace,extensions flip/extend,swap of adjacent entries} x mode {in flight to a follower, at rest on follower or leader}. The report for that range on that node must carry ErrChecksumMismatch, and may blame in-flight corruption only if the node was really handed an altered entry. Excluded: the index-1 configuration entry, mutations that change no hashed byte. Non-trivial = every case whose mutation is effective and whose report was delivered; distinct = FNV-64 of the case",
+        expect_classes=["mut:follower/inflight/first", "mut:follower/inflight/middle", "mut:follower/inflight/last", "mut:follower/atrest/first", "mut:follower/atrest/middle", "mut:follower/atrest/last", "mut:leader/atrest/first", "mut:leader/atrest/middle", "mut:leader/atrest/last"] + ["field:" + f for f in ["index", "term", "type", "data-flip", "data-trunc", "data-extend", "data-replace", "ext-flip", "ext-extend", "swap"]],
+        assumptions=COMMON_ASSUME + ["detection is asserted up to 64-bit FNV-1a collisions; two-field changes that move a byte between Data and Extensions hash identically by construction of checksumLog and are outside the single-field quantifier"],
+        jobs=[dict(pkg="cluster", run="TestC17Detects", checks_quick=800, checks_thorough=15000, shards_quick=8, shards_thorough=16, timeout_quick=300, timeout_thorough=1800)],
+    ),
+    "C18": dict(
+        level="exploration",
+        technique="differential (twin-run) property testing of verifier.LogStore against an identical bare store, plus a generated schedule of checkpoint arrivals vs releases of a blocked ReportFn with exact report/drop accounting",
+        rule="(a) rapid op sequences (appends with 0-3 checkpoints, checkpoints carrying foreign Extensions, invalid appends, head/tail/middle/no-op DeleteRange) applied through the middleware and directly to a twin store (InmemStore or WAL on SimFS): identical nil/non-nil errors, bounds and entries, except 24 bytes of metadata on leader checkpoints and refusal of foreign-extension checkpoints. (b) ReportFn blocked on harness tokens: interleaved appends of batches with checkpoints and token releases; every StoreLogs must return while blocked (stack evidence if not), delivered+dropped == checkpoints, delivered ranges are triggered ranges in order, SkippedRange == [prev.End, next.Start) after drops. Non-trivial = (a) a sequence with a checkpoint and a rejected call, (b) a drop followed by a delivery; distinct = FNV-64 of the case",
+        expect_classes=["foreign-checkpoint", "has-checkpoint", "rejected-call", "has-drop", "delivery-after-drop"],
+        assumptions=COMMON_ASSUME + ["a StoreLogs that has not returned after 20s with a goroutine parked inside verifier.StoreLogs/triggerVerify is judged blocked (stack evidence, not the timeout alone)"],
+        jobs=[
+            dict(pkg="cluster", run="TestC18Twin", checks_quick=500, checks_thorough=10000, shards_quick=6, shards_thorough=16, timeout_quick=300, timeout_thorough=1800),
+            dict(pkg="cluster", run="TestC18Blocked", checks_quick=500, checks_thorough=10000, shards_quick=4, shards_thorough=16, timeout_quick=300, timeout_thorough=1800),
+        ],
+    ),
+    "C19": dict(
+        level="exploration",
+        technique="property-based testing (rapid) of migrate.CopyLogs/CopyStable over generated source contents, batch sizes, store pairings and cancellation points; oracle = entry-wise equality with the source, prefix property, closed progress channel",
+        rule="sources of 0-60 entries starting at {1,2,1000,2^40}, entry sizes 0-5000, batchBytes in {-1,0,1,entry size +-1, sums +-1, 2^30}, source/destination in {WAL on SimFS, WAL on real dir, InmemStore, BoltStore v1, BoltStore v2}, progress in {nil, drained, unbuffered never read}, cancellation during the k-th GetLog; CopyStable over set/unset standard and extra keys. Non-trivial = empty source, or a split into >=1 full batch plus a remainder, or a cancellation strictly inside the copy, or a stable copy with at least one set key; distinct = FNV-64 of the case",
+        expect_classes=["empty-source", "split-with-remainder", "cancel-inside", "first-not-1", "stable-copied", "extra-keys", "cancelled", "store-error-passthrough"],
+        assumptions=COMMON_ASSUME + ["AppendedAt is compared as an instant (stores other than the WAL do not keep the zone)", "errors returned by a source/destination store (e.g. InmemStore/BoltStore 'not found' for unset stable keys) are pass-through, not defects of CopyStable"],
+        jobs=[
+            dict(pkg="migr", run="TestC19CopyLogs", checks_quick=200, checks_thorough=3000, shards_quick=8, shards_thorough=16, timeout_quick=400, timeout_thorough=2400),
+            dict(pkg="migr", run="TestC19CopyStable", checks_quick=150, checks_thorough=2000, shards_quick=4, shards_thorough=8, timeout_quick=400, timeout_thorough=2400),
+        ],
+    ),
 }
